@@ -474,6 +474,9 @@ impl Block for Instrumented {
         if self.epoch.load(SeqCst) {
             self.late_calls.fetch_add(1, SeqCst);
         }
+        // A real work() takes time and stream locks; let other threads (a
+        // canceller, say) run while this call is in progress.
+        rustradio::vsync::point();
         if Some(n) == self.fail_on {
             return Err(rustradio::Error::msg(format!("injected failure on call {n}")));
         }
